@@ -213,7 +213,7 @@ def generic(res, pid, prop_v, corr_runs, oracle_prop, what_for, rule, thorough_r
     mismatches, oracle_fails = [], []
     if st["driver"]:
         for label, args in (thorough_runs if (thorough and thorough_runs) else corr_runs):
-            s = hrun(res, args, seed=("loop" != args[0]))
+            s = hrun(res, args, seed=(args[0] not in ("loop", "forest")))
             merge_cov(res, s, label)
             for m in (s.get("mismatches") or []):
                 mismatches.append(dict(m, run=label))
@@ -269,6 +269,10 @@ SAN = lambda n, d: ("corr-san", ["corr", "-mode", "san", "-policies", str(n), "-
 TOK = lambda n, d: ("corr-tok", ["corr", "-mode", "tok", "-policies", str(n), "-docs", str(d)])
 LOOP = ("corr-loop", ["loop"])
 LOOP_T = ("corr-loop", ["loop", "-maxlen", "4", "-corelen", "5"])
+FOREST = ("corr-forest", ["forest"])
+FOREST_T = ("corr-forest", ["forest", "-nodes", "5", "-corenodes", "6"])
+RULE_FOREST = ("; (c) every well-formed forest of <=4 element nodes over 7 element kinds (dropped for lack of attributes, kept, skip-content, "
+               "disallowed, pattern-matched, void) and of <=5 over 4 core kinds, a text token after every tag, for 3 policies (exhaustive)")
 ATTRS = lambda g: ("corr-attrs-" + g, ["attrs", "-gen", g])
 ATTRS_T = lambda g: ("corr-attrs-" + g, ["attrs", "-gen", g, "-full"])
 FN = ("corr-fn", ["fn"])
@@ -295,8 +299,8 @@ def c05(res):
 
 @check("C08")
 def c08(res):
-    return generic(res, "C08", "Properties/C08.v", [LOOP, SAN(50, 50)], "C08",
-                   "the content-skipping state of the token loop", RULE_LOOP, thorough_runs=[LOOP_T, SAN(300, 100)])
+    return generic(res, "C08", "Properties/C08.v", [LOOP, FOREST, SAN(50, 50)], "C08",
+                   "the content-skipping state of the token loop", RULE_LOOP + RULE_FOREST, thorough_runs=[LOOP_T, FOREST_T, SAN(300, 100)])
 
 
 @check("C15")
@@ -392,10 +396,10 @@ def c07(res):
 
 @check("C09")
 def c09(res):
-    return generic(res, "C09", "Properties/C09.v", [LOOP, SAN(50, 50)], "C09",
-                   "the closing-tag stack of the token loop", RULE_LOOP + "; oracle: stack balance of the re-tokenised output on generated well-nested trees "
+    return generic(res, "C09", "Properties/C09.v", [LOOP, FOREST, SAN(50, 50)], "C09",
+                   "the closing-tag stack of the token loop", RULE_LOOP + RULE_FOREST + "; oracle: stack balance of the re-tokenised output on generated well-nested trees "
                    "(void elements, same-name nesting of kept and dropped elements, elements dropped for lack of attributes, skipped regions)",
-                   thorough_runs=[LOOP_T, SAN(300, 100)])
+                   thorough_runs=[LOOP_T, FOREST_T, SAN(300, 100)])
 
 
 @check("C20")
